@@ -1,0 +1,37 @@
+//go:build verif
+// +build verif
+
+package core
+
+import (
+	"math/big"
+	"strconv"
+
+	"com.tuntun.rangers/node/src/common"
+	"com.tuntun.rangers/node/src/middleware/log"
+)
+
+// Exports for the C09 correspondence harness: the transaction-request codec of the p2p receive path
+// (unMarshalTransactionRequestMessage in msg_handler.go, marshalTransactionRequestMessage in msg_sender.go),
+// which are unexported. No behaviour is added.
+
+// VerifC09InitLogger sets the package logger the way initChain does.
+func VerifC09InitLogger() {
+	if logger == nil {
+		logger = log.GetLoggerByIndex(log.CoreLogConfig, strconv.Itoa(common.InstanceIndex))
+	}
+}
+
+// VerifC09UnMarshalTransactionRequestMessage is unMarshalTransactionRequestMessage with its result spelled out.
+func VerifC09UnMarshalTransactionRequestMessage(b []byte) (hashes []common.Hashes, current common.Hash, height uint64, pv *big.Int, err error) {
+	m, e := unMarshalTransactionRequestMessage(b)
+	if e != nil || m == nil {
+		return nil, common.Hash{}, 0, nil, e
+	}
+	return m.TransactionHashes, m.CurrentBlockHash, m.BlockHeight, m.BlockPv, nil
+}
+
+// VerifC09MarshalTransactionRequestMessage is marshalTransactionRequestMessage.
+func VerifC09MarshalTransactionRequestMessage(hashes []common.Hashes, current common.Hash, height uint64, pv *big.Int) ([]byte, error) {
+	return marshalTransactionRequestMessage(&transactionRequestMessage{TransactionHashes: hashes, CurrentBlockHash: current, BlockHeight: height, BlockPv: pv})
+}
